@@ -89,6 +89,8 @@ func c16HistWorker(args []string) int {
 		c16MixedInProcess(ctx)
 	case "asyncown":
 		c16AsyncOwnInProcess(ctx)
+	case "chunkflag":
+		c16ChunkFlagInProcess(ctx)
 	default:
 		return 2
 	}
